@@ -110,7 +110,7 @@ CONTRACTS = {
     "inspect.getmembers": {"kind": "external", "params": {"obj": "py", "pred": "py"}, "returns": "Seq[(Str,Ref:Method)]", "pure_result": "g_members",
                            "ensures": {"bound methods, one object per member name": "forall(j, Int, implies(0 <= j and j < len(result), result[j][1] is not None)) and forall(j, Int, forall(k, Int, implies(0 <= j and j < k and k < len(result), not (result[j][1] is result[k][1]))))"}, "note": "inspect.getmembers(component, inspect.ismethod)"},
     "typing.get_type_hints": {"kind": "external", "params": {"m": "Ref:Method"}, "returns": "Map[Str,Ref:TypeObj]", "ensures": {}, "note": "typing.get_type_hints(method)"},
-    "_get_topic_type": {"kind": "external", "params": {"annotation": "Ref:TypeObj"}, "returns": "Ref:TopicType", "ensures": {"the topic class the tables give for this annotation (None if none)": "result is topic_of_hint(annotation)"}, "verify": False,
+    "_get_topic_type": {"kind": "external", "cites": ['C09.Y1', 'C09.Y2', 'C09.Y3', 'C09.Y4'], "params": {"annotation": "Ref:TypeObj"}, "returns": "Ref:TopicType", "ensures": {"the topic class the tables give for this annotation (None if none)": "result is topic_of_hint(annotation)"}, "verify": False,
                         "note": "_get_topic_type: type-hint -> ntcore topic class table (structural check C09.T1 + bounded stand-in)"},
     "tt.seq_hint": {"kind": "external", "params": {"value": "Ref:PyObj"}, "returns": "Ref:TypeObj", "ensures": {"Sequence[type(value[0])]": "result is seq_hint_of(value)"},
                     "note": "the expression Sequence[type(value[0])] (subscripting a typing alias / the first element of an arbitrary sequence): abstracted as seq_hint_of(value)"},
